@@ -228,6 +228,20 @@ def _eval(
                 "Already in dds.eval() context. Nested eval contexts are not supported",
                 DDSErrorCode.EVAL_IN_EVAL,
             )
+        fun_mod_ = getattr(fun, "__module__", None)
+        if fun_mod_ is not None and not any(
+            fun_mod_ == p_ or fun_mod_.startswith(p_ + ".")
+            for p_ in _accepted_packages
+        ):
+            # Checked first: the path of such a function may by accident also be kept by the evaluation itself,
+            # and its result would then be stored under the signature of another function.
+            raise DDSException(
+                f"The call that keeps the path {path} (function {getattr(fun, '__qualname__', fun)}) belongs to the "
+                f"module '{fun_mod_}', which has not been whitelisted for use by DDS: its code is not tracked and "
+                f"it cannot keep data inside an evaluation. Use the function 'dds.accept_module' to whitelist "
+                f"{fun_mod_} or one of its parent packages.",
+                DDSErrorCode.MODULE_NOT_FOUND,
+            )
         if path not in _eval_ctx.requested_paths:
             # The analysis of the running evaluation has not seen this call. It follows accepted modules only.
             fun_mod = getattr(fun, "__module__", None)
